@@ -65,14 +65,15 @@ type c03Slot struct {
 }
 
 type c03Fault struct {
-	T    string `json:"t"` // G P N
-	K    int    `json:"k"`
-	ID   string `json:"id"` // hex or *
-	From int    `json:"from"`
-	To   int    `json:"to"`
-	F    string `json:"f"` // io rd rp rs
-	Arg  string `json:"arg,omitempty"`
-	Lbl  string `json:"label,omitempty"` // rs: the chunk id the answer is labelled with
+	T         string `json:"t"` // G P N
+	K         int    `json:"k"`
+	ID        string `json:"id"` // hex or *
+	From      int    `json:"from"`
+	To        int    `json:"to"`
+	F         string `json:"f"` // io rd rp rs
+	Arg       string `json:"arg,omitempty"`
+	Lbl       string `json:"label,omitempty"`      // rs: the chunk id the answer is labelled with
+	FlagUnset bool   `json:"flag_unset,omitempty"` // rs: the CHUNK message's "compressed" flag is not set
 }
 
 type c03Case struct {
@@ -141,6 +142,8 @@ func (n *c03Node) oracle() string {
 		return fmt.Sprintf("P,%d,%s", n.Hop, kids())
 	case "foreign": // a Store that derives the chunk (and its id) from its content: NewChunk(stored bytes)
 		return fmt.Sprintf("X,%d", n.K)
+	case "sshp": // RemoteSSH -> a scripted peer (child process): its answers are the N rules of the case
+		return fmt.Sprintf("P,%d,L,%d,l,0,0,0", n.Hop, n.K)
 	case "sshf": // RemoteSSH -> a ProtocolServer (child process) over such a store
 		return fmt.Sprintf("P,%d,X,%d", n.Hop, n.K)
 	case "ssh": // RemoteSSH -> `desync pull`: a ProtocolServer over a local store opened with SkipVerify
@@ -164,6 +167,8 @@ func (n *c03Node) shape() string {
 		return "ssh"
 	case "sshf":
 		return "ssh(foreign)"
+	case "sshp":
+		return "ssh(peer)"
 	case "foreign":
 		return "foreign"
 	}
@@ -200,7 +205,7 @@ func c03Verifying(n *c03Node) bool {
 		return !n.Skip
 	case "http":
 		return !n.Skip
-	case "proto", "ssh", "sshf":
+	case "proto", "ssh", "sshf", "sshp":
 		return true
 	case "foreign": // trusts its content
 		return false
@@ -249,6 +254,7 @@ type c03Env struct {
 	skippedBig int
 	tmpLeft    int
 	readerHung bool
+	pending    []c03Fault // the faults of the case being built
 	hangs      map[string]int
 }
 
@@ -572,12 +578,29 @@ func (e *c03Env) build(n *c03Node, cleanup *[]func()) (desync.Store, error) {
 			return nil, err
 		}
 		return &c03ProtoStore{inner: inner, hop: n.Hop, env: e, keep: n.Keep}, nil
-	case "ssh", "sshf", "foreign":
+	case "ssh", "sshf", "sshp", "foreign":
 		dir := filepath.Join(e.caseDir(), fmt.Sprintf("b%d", n.K))
 		if err := os.MkdirAll(dir, 0755); err != nil {
 			return nil, err
 		}
 		switch n.T {
+		case "sshp":
+			// the peer's script: one answer file per rule of this hop (flags | label | body)
+			for _, f := range e.pending {
+				if f.T != "N" || f.K != n.Hop || f.F != "rs" {
+					continue
+				}
+				m := make([]byte, 40)
+				if !f.FlagUnset {
+					binary.LittleEndian.PutUint64(m[0:8], desync.CaProtocolChunkCompressed)
+				}
+				copy(m[8:40], vh.UnHex(f.Lbl))
+				m = append(m, vh.UnHex(f.Arg)...)
+				if err := os.WriteFile(filepath.Join(dir, f.ID+".ans"), m, 0644); err != nil {
+					return nil, err
+				}
+			}
+			return &c03SSHStore{dir: dir, env: e, remote: e.self + " C03PEER", keep: n.Keep, n: n.N}, nil
 		case "foreign":
 			return &c03ForeignStore{dir: dir}, nil
 		case "sshf":
@@ -601,20 +624,34 @@ type c03ProtoStore struct {
 
 type c03FaultWriter struct {
 	w     *io.PipeWriter
+	mu    sync.Mutex
 	armed bool
-	first bool
-	mode  string // "" pass, "io" fail, "rp" replaced
+	left  int    // bytes of the server's current message still to come (it writes header, then body)
+	mode  string // for the current message: "" pass, "io" fail, "rp" replaced
 	env   *c03Env
 	hop   int
-	id    desync.ChunkID
+	id    desync.ChunkID // the chunk the client is asking for
 }
 
+func (f *c03FaultWriter) arm(id desync.ChunkID) {
+	f.mu.Lock()
+	f.id, f.armed = id, true
+	f.mu.Unlock()
+}
+
+// Write follows the framing of the server's messages (16-byte header with the total length,
+// then the body): the decision what happens to an answer is taken once, at its header, and the
+// rest of that message is treated the same way even if the client has gone on meanwhile.
 func (f *c03FaultWriter) Write(p []byte) (int, error) {
+	f.mu.Lock()
 	if !f.armed {
+		f.mu.Unlock()
 		return f.w.Write(p)
 	}
-	if !f.first {
-		f.first = true
+	var crafted []byte
+	if f.left <= 0 && len(p) >= 8 {
+		f.left = int(binary.LittleEndian.Uint64(p[0:8]))
+		f.mode = ""
 		if fl := f.env.fault("N", f.hop, hex.EncodeToString(f.id[:])); fl != nil {
 			switch fl.F {
 			case "io", "rd":
@@ -629,19 +666,27 @@ func (f *c03FaultWriter) Write(p []byte) (int, error) {
 				m := make([]byte, 16+40+len(body))
 				binary.LittleEndian.PutUint64(m[0:8], uint64(len(m)))
 				binary.LittleEndian.PutUint64(m[8:16], desync.CaProtocolChunk)
-				binary.LittleEndian.PutUint64(m[16:24], desync.CaProtocolChunkCompressed)
+				if !(fl.F == "rs" && fl.FlagUnset) {
+					binary.LittleEndian.PutUint64(m[16:24], desync.CaProtocolChunkCompressed)
+				}
 				copy(m[24:56], label)
 				copy(m[56:], body)
-				if _, err := f.w.Write(m); err != nil {
-					return 0, err
-				}
+				crafted = m
 			}
 		}
 	}
-	switch f.mode {
+	f.left -= len(p)
+	mode := f.mode
+	f.mu.Unlock()
+	switch mode {
 	case "io":
 		return 0, errors.New("injected transport failure")
 	case "rp":
+		if crafted != nil {
+			if _, err := f.w.Write(crafted); err != nil {
+				return 0, err
+			}
+		}
 		return len(p), nil
 	}
 	return f.w.Write(p)
@@ -697,7 +742,7 @@ func (p *c03ProtoStore) GetChunk(id desync.ChunkID) (*desync.Chunk, error) {
 			return nil, err
 		}
 		defer ss.close()
-		ss.fw.armed = true
+		ss.fw.arm(id)
 		return ss.client.RequestChunk(id)
 	}
 	// one session for all requests; a session that failed is replaced
@@ -708,7 +753,7 @@ func (p *c03ProtoStore) GetChunk(id desync.ChunkID) (*desync.Chunk, error) {
 		}
 		p.cur = ss
 	}
-	p.cur.fw.id, p.cur.fw.first, p.cur.fw.mode, p.cur.fw.armed = id, false, "", true
+	p.cur.fw.arm(id)
 	c, err := p.cur.client.RequestChunk(id)
 	if err != nil {
 		if _, missing := err.(desync.ChunkMissing); !missing {
@@ -932,6 +977,7 @@ func (e *c03Env) runCase(c *c03Case, corr bool) error {
 			f()
 		}
 	}()
+	e.pending = c.Faults
 	store, err := e.build(c.Stack, &cleanup)
 	if err != nil {
 		return fmt.Errorf("build %s: %v", c.Stack.shape(), err)
@@ -981,6 +1027,15 @@ func (e *c03Env) runCase(c *c03Case, corr bool) error {
 	}
 	if len(c.Others) > 0 {
 		planted = "other-format:" + c.Others[0].Kind
+	}
+	for _, f := range c.Faults {
+		if f.F == "rs" {
+			planted += "+scripted-peer-answer"
+			if f.FlagUnset {
+				planted += "(compressed flag unset)"
+			}
+			break
+		}
 	}
 	c.Impl = nil
 	anyBadPlant := planted != "good" || len(c.Faults) > 0 || len(c.Others) > 0
@@ -1432,7 +1487,11 @@ func (e *c03Env) correspond(c *c03Case, leaves []c03Leaf, after map[int]map[stri
 	for _, f := range e.rules {
 		s := fmt.Sprintf("%s:%d:%s:%d:%d:%s", f.T, f.K, f.ID, f.From, f.To, f.F)
 		if f.F == "rs" {
-			s += ":" + f.Lbl
+			fg := "1"
+			if f.FlagUnset {
+				fg = "0"
+			}
+			s += ":" + fg + ":" + f.Lbl
 		}
 		if f.F != "io" {
 			s += ":" + f.Arg
